@@ -78,13 +78,13 @@ def Storage_SetHash : List String := ["cacheTierFor().Set", "cacheTierFor"]
 def Storage_SetNX : List String := ["cacheTierFor", "nxSetter.SetNX", "cache.Exists", "cache.Set"]
 def Storage_SetPersistent : List String := ["lockKey", "setPersistent"]
 def Storage_SetRuntime : List String := ["lockKey", "setRuntime"]
-def Storage_get : List String := ["getCategory", "getCacheForKey", "cache.Get", "cache.Get", "getSharedPersistent", "cache.Get", "lockKey", "persistent.Get", "cache.Set"]
+def Storage_get : List String := ["getCategory", "getCacheForKey", "cache.Get", "getSharedPersistent", "cache.Get", "lockKey", "persistent.Get", "cache.Set"]
 def Storage_getList : List String := ["get"]
 def Storage_getSharedPersistent : List String := ["cache.Get", "lockKey", "persistent.Get", "cache.Set"]
 def Storage_setLocked : List String := ["getCategory", "setPersistent", "setShared", "setSharedPersistent", "setRuntime"]
 def Storage_setPersistent : List String := ["persistent.Set", "cache.Set"]
 def Storage_setRuntime : List String := ["cache.Set"]
-def Storage_setShared : List String := ["getCacheForKey", "cache.Set", "cache.Set"]
+def Storage_setShared : List String := ["getCacheForKey", "cache.Set"]
 def Storage_setSharedPersistent : List String := ["persistent.Set", "sharedCache.Set", "cache.Set"]
 end Skel
 
